@@ -9,7 +9,7 @@ CHECKS = {
     "C03": dict(
         category="proof",
         text="Every transform class: deriv/deriv2/deriv3 = D^k(transform), inverse∘transform = id = transform∘inverse, strict monotonicity, "
-             "finite end points, generic inverse-derivative formulas (jet equations) and scalar/array agreement are proof obligations "
+             "finite end points, generic inverse-derivative formulas (jet equations) and scalar/array agreement (float- and integer-typed argument arrays) are proof obligations "
              "generated from the real methods' AST for symbolic parameters and x, discharged by z3/cvc5 after atom abstraction; a bounded "
              "native layer (finite differences, infinite end points with trim_inf) runs beside it and is labelled bounded.",
         design="8/C03",
@@ -30,7 +30,9 @@ CHECKS = {
         category="proof",
         text="_get_degree_and_size with a symbolic integer request (by degree, by size, both) for all four methods: result is supported, not below "
              "the request, least such, paired by the table; raising paths only out of range; loader consistency checks accept the pair; "
-             "AngularGrid.__init__ hands out the data of its own (method, degree) after any other-method construction (cache cells per method); "
+             "AngularGrid.__init__ executed for a symbolic request by degree and by size (0..max) with the loader by contract: the grid that is built has the least "
+             "supported pair not below the request, reports it, requests above the maximum are refused; it hands out the data of its own (method, degree) after any "
+             "other-method construction (cache cells per method); "
              "convert_angular_sizes_to_degrees element-wise (loop invariant over np.unique with a modular callee contract). Tables are evaluated "
              "from the module source. Exhaustive native layer: all ~115 000 integer look-ups, every data file, converter and cross-method histories.",
         design="8/C12",
